@@ -1810,6 +1810,13 @@ fn verify_nsec(
             || nsec_data.type_set().contains(RecordType::CNAME)
         {
             nsec1_yield(Proof::Bogus, "direct match, record type should be present")
+        } else if is_ancestor_delegation(nsec_data) && query.query_type != RecordType::DS {
+            // RFC 6840 section 4.1: the parent-side NSEC of a delegation (NS set, SOA clear)
+            // only speaks for the DS RRset at that name.
+            nsec1_yield(
+                Proof::Bogus,
+                "direct match is an ancestor delegation NSEC, which can only deny DS",
+            )
         } else if response_code == ResponseCode::NoError && !have_answer {
             nsec1_yield(Proof::Secure, "direct match")
         } else {
@@ -2002,9 +2009,25 @@ fn find_nsec_covering_record<'a>(
     nsecs.iter().copied().find(|(nsec_name, nsec_data)| {
         let next_domain_name = nsec_data.next_domain_name();
 
+        // The last NSEC of a zone points back to the apex; only an NSEC that itself lies in
+        // that zone can be the last one (not e.g. the parent's NSEC preceding a delegation).
+        let wraps = Some(next_domain_name) == soa_name
+            && soa_name.is_some_and(|soa_name| soa_name.zone_of(nsec_name));
+
         test_name > nsec_name
-            && (test_name < next_domain_name || Some(next_domain_name) == soa_name)
+            && (test_name < next_domain_name || wraps)
+            // RFC 6840 section 4.1: an ancestor delegation NSEC says nothing about names below
+            // its owner.
+            && !(is_ancestor_delegation(nsec_data) && nsec_name.zone_of(test_name))
+            // If the next name is a descendant of the test name, the test name exists as an
+            // empty non-terminal: it is not "covered".
+            && !(test_name.zone_of(next_domain_name) && test_name != next_domain_name)
     })
+}
+
+/// An NSEC from the parent side of a zone cut: NS bit set, SOA bit clear (RFC 6840 section 4.1).
+fn is_ancestor_delegation(nsec_data: &NSEC) -> bool {
+    nsec_data.type_set().contains(RecordType::NS) && !nsec_data.type_set().contains(RecordType::SOA)
 }
 
 /// Logs a debug message and yields a Proof type for return
